@@ -69,14 +69,125 @@ def scripts(rng, q):
     return out
 
 
-def write_cfg(name, mode, extra):
+def write_cfg(name, mode, extra, consts=None):
     d = os.path.join(vkit.OUT, "cfg"); os.makedirs(d, exist_ok=True)
     p = os.path.join(d, name + ".cfg")
-    open(p, "w").write("CONSTANTS\n  Mode = \"%s\"\n  NReq = 2\n  MaxRetry = 1\n%s\nCHECK_DEADLOCK FALSE\n" % (mode, extra))
+    open(p, "w").write("CONSTANTS\n  Mode = \"%s\"\n%s\n%s\nCHECK_DEADLOCK FALSE\n" % (mode, consts or "  NReq = 2\n  MaxRetry = 1", extra))
     return p
 
 
-def validate(chk, name, traces):
+# ----------------------------------------------------------------------------- server side (specs/HttpServer.tla)
+SRV_CONSTS = "  Clients = {0, 1}\n  MaxReq = 2\n  Limit = 1"
+
+
+def sreq(c, k, m):
+    return "GET /c%d/r%d/%s HTTP/1.1\r\nHost: h\r\n\r\n" % (c, k, m)
+
+
+def server_scripts(rng, q):
+    """raw-client scripts: pipelined requests answered at once / later / streamed, half requests + close, close before the
+    reply (late reply), close after the reply, more connections than evhttp_set_max_connections allows"""
+    out = []
+    import itertools
+    modes = "ikdD"
+    # A: pipelines on one connection, sent in one piece or cut in the middle of the last request
+    for n in (1, 2, 3):
+        for ms in itertools.product(modes, repeat=n):
+            if q and n == 3 and rng.random() < 0.7:
+                continue
+            data = "".join(sreq(0, k, m) for k, m in enumerate(ms))
+            for cut in (None, len(data) - 9):
+                st = [["open", 0]]
+                if cut is None:
+                    st.append(["send", 0, data, n])
+                else:
+                    st += [["send", 0, data[:cut], n - 1], ["send", 0, data[cut:], 1]]
+                st += [["reply", 0]] * sum(1 for m in ms if m in "dD")
+                out.append({"mode": "srvscript", "max_conn": 0, "steps": st})
+    # B: half a request, then the client goes away;  C: close before the reply (late reply);  D: close after the reply
+    for m0 in modes:
+        out.append({"mode": "srvscript", "max_conn": 0, "steps": [["open", 0], ["send", 0, sreq(0, 0, m0) + sreq(0, 1, "i")[:17], 1],
+                                                                  ["reply", 0], ["pclose", 0]]})
+    for tail in ("", sreq(0, 1, "i"), sreq(0, 1, "d")):
+        for hold in "dD":
+            n = 1 + (1 if tail else 0)
+            out.append({"mode": "srvscript", "max_conn": 0, "steps": [["open", 0], ["send", 0, sreq(0, 0, hold) + tail, n], ["pclose", 0],
+                                                                      ["reply", 0], ["reply", 0]]})
+            out.append({"mode": "srvscript", "max_conn": 0, "steps": [["open", 0], ["send", 0, sreq(0, 0, hold) + tail, n], ["reply", 0],
+                                                                      ["pclose", 0], ["reply", 0]]})
+    # E: connection limit
+    for limit in (1, 2):
+        for m0 in "id":
+            st = [["open", 0], ["open", 1], ["open", 2], ["send", 1, sreq(1, 0, "i"), 1], ["send", 2, sreq(2, 0, "i"), 1],
+                  ["send", 0, sreq(0, 0, m0) + sreq(0, 1, "k"), 2], ["pclose", 0], ["open", 3], ["send", 3, sreq(3, 0, "i"), 1],
+                  ["reply", 0], ["open", 4], ["send", 4, sreq(4, 0, "d"), 1], ["reply", 4]]
+            out.append({"mode": "srvscript", "max_conn": limit, "steps": st})
+    # random scripts
+    for _ in range(40 if q else 400):
+        limit = rng.choice([0, 0, 1, 2])
+        st, opened, closed, nreq, held = [], [], set(), {}, {}
+        for _ in range(rng.randint(4, 12)):
+            act = rng.choice(["open", "send", "send", "reply", "pclose"])
+            if act == "open" and len(opened) < 5:
+                c = len(opened); opened.append(c); nreq[c] = 0; st.append(["open", c])
+            elif act == "send" and [c for c in opened if c not in closed]:
+                c = rng.choice([c for c in opened if c not in closed]); k = rng.randint(1, 2)
+                data = "".join(sreq(c, nreq[c] + j, rng.choice(modes)) for j in range(k)); nreq[c] += k
+                st.append(["send", c, data, k])
+            elif act == "reply" and opened:
+                st.append(["reply", rng.choice(opened)])
+            elif act == "pclose" and [c for c in opened if c not in closed]:
+                c = rng.choice([c for c in opened if c not in closed]); closed.add(c); st.append(["pclose", c])
+        st += [["reply", c] for c in opened for _ in range(3)]
+        out.append({"mode": "srvscript", "max_conn": limit, "steps": st})
+    return out
+
+
+def run_server_side(chk, exe, rng, q):
+    cfg = write_cfg("C27_srv_mc", "model", "INIT Init\nNEXT Next\nINVARIANT HandlerExactlyOnce\nINVARIANT AtMostOneResponse\n"
+                                           "INVARIANT OverLimitNeverHandled", SRV_CONSTS)
+    res = vkit.tlc("HttpServer", cfg, workers=4, want_prints=False, timeout=900)
+    chk.add_tlc("C27_srv_mc", res)
+    if res.distinct < 500:
+        raise vkit.InfraError("vacuous HttpServer model run: %r" % res)
+    sc = server_scripts(rng, q)
+
+    def execute(scripts):
+        outs = vkit.run_driver(exe, scripts, timeout=1500)
+        traces, keep = [], []
+        for s, o in zip(scripts, outs):
+            if o is None or "crash" in o:
+                chk.violation("server script %s: driver crashed (sanitizer report?): %s" % (json.dumps(s)[:400], (o or {}).get("crash", "no output")[-1500:]), s)
+            elif o.get("hang"):
+                raise vkit.InfraError("server script did not settle: %s" % json.dumps(s)[:400])
+            else:
+                traces.append([["reset", s["max_conn"], 0]] + o["ev"]); keep.append(s)
+        return traces, keep
+    traces, keep = execute(sc)
+    for s in sc:
+        chk.count_case(s, nontrivial=True)
+    chk.cov["server_scripts"] = len(traces)
+    chk.cov["traces_validated_against_impl"] += len(traces)
+    chk.cov["events"] = chk.cov.get("events", 0) + sum(len(t) for t in traces)
+    inv = ("HandlerExactlyOnce", "AtMostOneResponse", "OverLimitNeverHandled")
+    for attempt in range(4):
+        bad, why = validate(chk, "C27_srv_trace%d" % attempt, traces, spec="HttpServer", invs=inv, consts=SRV_CONSTS)
+        if bad is None:
+            break
+        # a rejection must repeat on a re-run of the same script (quiescence of several sockets is heuristic)
+        again, _ = execute([keep[bad]] * 2)
+        rej = [validate(chk, "C27_srv_retry%d" % attempt, [t], spec="HttpServer", invs=inv, consts=SRV_CONSTS)[0] is not None for t in again]
+        if again and all(rej):
+            chk.violation("server script %s: events %s: %s" % (json.dumps(keep[bad])[:600], json.dumps(traces[bad]), why),
+                          {"script": keep[bad], "events": traces[bad]})
+        else:
+            chk.cov["unrepeated_rejections"] = chk.cov.get("unrepeated_rejections", 0) + 1
+        del traces[bad]; del keep[bad]
+    for s, t in list(zip(keep, traces))[:2]:
+        chk.sample({"server_script": s["steps"][:6], "max_conn": s["max_conn"], "events": t})
+
+
+def validate(chk, name, traces, spec="HttpConn", invs=("ExactlyOnce", "ErrorCbAtMostOnce", "QueueConsistent"), consts=None):
     """traces: list of event lists.  Returns index of the first rejected trace or None."""
     d = os.path.join(vkit.OUT, "tmp"); os.makedirs(d, exist_ok=True)
     tr = os.path.join(d, "%s_%d.ndjson" % (name, os.getpid()))
@@ -87,10 +198,9 @@ def validate(chk, name, traces):
             starts.append(n + 1)
             for e in t:
                 f.write(json.dumps(e) + "\n"); n += 1
-    cfg = write_cfg(name, "trace", "INIT Init\nNEXT Next\nINVARIANT Progress\nINVARIANT ExactlyOnce\n"
-                                   "INVARIANT ErrorCbAtMostOnce\nINVARIANT QueueConsistent")
+    cfg = write_cfg(name, "trace", "INIT Init\nNEXT Next\nINVARIANT Progress\n" + "\n".join("INVARIANT " + i for i in invs), consts)
     reached = []
-    res = vkit.tlc("HttpConn", cfg, env={"TRACE": tr}, workers=1, print_sink=reached.append, timeout=1500)
+    res = vkit.tlc(spec, cfg, env={"TRACE": tr}, workers=1, print_sink=reached.append, timeout=1500)
     os.unlink(tr)
     if res.error:
         raise vkit.InfraError("TLC %s: %s\n%s" % (name, res.error, res.raw[-3000:]))
@@ -136,6 +246,7 @@ def run(tier, seed):
         traces.append([["reset", s["errcb"], s["retries"]]] + o["ev"]); keep.append(s)
     chk.cov["fault_kinds"] = kinds
     chk.cov["traces_validated_against_impl"] = len(traces)
+    chk.cov["client_scripts"] = len(traces)
     chk.cov["events"] = sum(len(t) for t in traces)
     for attempt in range(4):
         bad, why = validate(chk, "C27_trace%d" % attempt, traces)
@@ -146,6 +257,7 @@ def run(tier, seed):
         del traces[bad]; del keep[bad]
     for s, t in list(zip(keep, traces))[:3]:
         chk.sample({"script": {k: v for k, v in s.items() if k != "conns"}, "fault": s["conns"][0] if s["conns"] else None, "callbacks": t})
+    run_server_side(chk, exe, rng, q)
     chk.cov["rule"] = ("TLC model-checks the life-cycle model; every fault script (EOF / reset / stall after each octet offset of 3 "
                        "exchanges, refused connects with retries, cancel before / during the exchange) runs on a real "
                        "evhttp_connection; the logged callbacks (make, cancel, err, done ok/failed, end) of all scripts are one "
